@@ -84,7 +84,10 @@ def _pair_job(state, job):
     fa, fb = na - ncon, nb - ncon
     try:
         ev = w.ev()
-        ref = value(w, ev, _td(w, ev, sp.build(w), other.build(w), (axa, axb)))
+        try:
+            ref = value(w, ev, _td(w, ev, sp.build(w), other.build(w), (axa, axb)))
+        except (Raised,) + PYERR + (LayoutError,):
+            return wit.w, wit.n  # the plain contraction itself fails: reported by C02 / C06, there is no route to compare
         # R04.5 operand order
         wit.tick("R04.5")
         r2 = _td(w, ev, other.build(w), sp.build(w), (axb, axa))
